@@ -40,6 +40,14 @@ def gen_case(rnd, tier: str, i: Any) -> Dict[str, Any]:
     return {"files": files, "builds": rnd.choice([1, 1, 2, 3]), "from_df": rnd.random() < 0.3}
 
 
+def fixed_cases(tier: str):
+    if tier != "thorough":
+        return []
+    # row ids beyond int16; one with an autograd thread
+    return [{"files": {"rank0.json": gen_sim.huge_trace(12)}, "builds": 2, "from_df": False, "time_unit": 1},
+            {"files": {"rank0.json": gen_sim.huge_trace(13, autograd=True, n_threads=2)}, "builds": 1, "from_df": True, "time_unit": 1}]
+
+
 def run_case(case: Dict[str, Any], ctx: Any) -> core.CaseResult:
     res = core.CaseResult()
     models = {}
